@@ -9,7 +9,7 @@ ATOMS = [b'a', b'\n', b'\x00', b'\xc3\xa9', b'\xe3\x81\x82', b'\xf0\x9f\x98\x80'
 RULE = ('device output = concatenation of <=k atoms from a UTF-8-hostile alphabet (ASCII, NL, NUL, 2/3/4-byte sequences, 0xff, lone lead, '
         'lone continuation) plus the empty output; ALL 2^(n-1) partitions of the n-byte output into WRTE payloads (choice point) x '
         '{shell, exec_out, streaming_shell, root} x decode x {sync, async} x CLSE {after ack, eager}; large payloads at maxdata boundaries; '
-        'read-fragment deviations; a second live stream with distinct bytes in flight under every device wire order; oracle = device-side '
+        'read-fragment deviations; a second live stream with distinct bytes in flight under every device wire order; an OPEN answered only after the caller timed out, followed by further commands; oracle = device-side '
         'per-stream payload record and Python bytes.decode(utf8, backslashreplace); non-trivial = output non-empty; distinct = distinct '
         '(output, partition, api, decode, twin, close timing, deviations)')
 ASSUMPTIONS = ['adbsim is a faithful adbd model (one unacknowledged WRTE per stream, CLSE after the last ack or eagerly)',
@@ -126,6 +126,32 @@ def run_iso(params, ch):
         s.finish()
 
 
+def run_late(params, ch):
+    """The device answers an OPEN only after the caller gave up; the next command on the same connection must still get
+    exactly its own output (the late OKAY / WRTE / CLSE of the abandoned stream must not leak into it)."""
+    twin, api, decode = params['twin'], params['api'], params['decode']
+    mine = [b'mi', b'\xc3', b'\xa9ne']
+    late = [b'LATE-1', b'LATE-2']
+    dest = {'shell': b'shell:c', 'exec_out': b'exec:c', 'streaming_shell': b'shell:c'}[api]
+    cfg = {'shell': {b'shell:slow': late[:params['nlate']], dest: mine}, 'clse': params['clse'], 'open_delay': {b'shell:slow': params['delay']}}
+    s = Session(ch, cfg, twin=twin)
+    try:
+        s.op(('connect',))
+        r1 = s.op(('shell', 'slow', {'decode': False, 'transport_timeout_s': 0.5, 'read_timeout_s': 1.0}))
+        r2 = call(s, api, 'c', decode)
+        r3 = call(s, api, 'c', decode)
+        viol = [{'msg': '%s: %s' % i} for i in s.env.issues if i[0] != 'okay']
+        if r1[0] != 'exc':
+            viol.append({'msg': 'harness: the slow open was expected to time out, got %r' % (r1,)})
+        for r in (r2, r3):
+            if r != ('ok', expected(api, decode, mine)):
+                viol.append({'msg': '%s after an abandoned open returned %r, the device wrote %r on that stream (late packets of the abandoned stream: %r)' % (api, r, mine, late[:params['nlate']])})
+        return {'outcome': (r1[:2], r2, r3), 'viol': viol, 'nontrivial': (twin, api, decode, params['clse'], params['delay'], params['nlate'], tuple(ch.choices)),
+                'sample': dict(params, first=r1[:2], second=r2), 'trans': len(s.env.events)}
+    finally:
+        s.finish()
+
+
 def strings(k):
     out = [b'']
     level = [b'']
@@ -159,4 +185,8 @@ def parts(tier):
     iso = [{'twin': t, 'api': a, 'decode': d, 'clse': c} for t in twins for a in apis for d in (True, False) for c in ('after-ack', 'eager')]
     out.append(Part('isolation', iso, run_iso, {'dev-order': None}, what='second live stream with bytes in flight, all device wire orders',
                     bound='all dev-order choices'))
+    late = [{'twin': t, 'api': a, 'decode': d, 'clse': c, 'delay': dl, 'nlate': nl} for t in twins for a in apis for d in (True, False) for c in ('after-ack', 'eager')
+            for dl in (0.7, 1.2, 1.7, 30.0) for nl in (0, 1, 2)]
+    out.append(Part('late-answers', late, run_late, {'dev-order': None}, what='an OPEN answered only after the caller gave up, then two more commands on the same connection; all wire orders',
+                    bound='%d cases x all dev-order choices' % len(late)))
     return out
